@@ -24,7 +24,8 @@ RULE = (
     "scratch directory under two different file namings, with and without groups; (deltas) feat_deltas/"
     "FeatureDeltas for every (dim, time_dim, concatenate), orders 0-3, widths 1-3, four padding modes; (returns) "
     "time_distributed_return for gamma in {0, .1, .25, .5, .9, .99, 1, 1.01, 1.1, 1.5, 2, negative}, both "
-    "layouts, horizons up to 400 (quick) / 600 (thorough) with a tenth of the long-horizon class at 1100-2000, sparse rewards.  A case is distinct by the hash of "
+    "layouts, horizons up to 400 (quick) / 600 (thorough) with a tenth of the long-horizon class at "
+    "1100-2000, sparse rewards.  A case is distinct by the hash of "
     "its concrete inputs and non-trivial if the definition is exercised beyond the identity: mvn - at least two "
     "frames, a coefficient of non-zero variance and a history with two or more chunks; own/given - a coefficient "
     "of non-zero variance; cmd - two or more files; deltas - order >= 1 and two or more time steps; returns - "
@@ -56,7 +57,7 @@ BUDGET = {
     "thorough": dict(cases=1000, shards=16, timeout=3000),
 }
 _EV_Q = {
-    "accumulate": 1500, "store": 500, "mvn_call": 400, "mean_var_norm": 40, "feat_deltas": 100,
+    "accumulate": 1500, "store": 500, "mvn_call": 400, "mean_var_norm": 30, "feat_deltas": 100,
     "FeatureDeltas": 100, "time_distributed_return": 120, "TimeDistributedReturn": 120,
     "compute_mvn_stats_cmd": 150,
     "assert:stat-mean": 400, "assert:stat-std": 400, "assert:history-agreement": 250,
